@@ -30,6 +30,11 @@ const (
 	// the imported snapshot is durable (a power cut there leaves the replica with
 	// neither its old data nor the snapshot).
 	SigS11 = "tan-crash-in-importsnapshot-not-atomic"
+	// SigS12: sharded Pebble does not invalidate its per-node caches (snapshot
+	// index, hard state, last entry batch) in RemoveNodeData; a new life of the
+	// replica in the same process has its first saves filtered against the
+	// removed life (snapshot record / state silently not written).
+	SigS12 = "logdb-removenodedata-stale-cache-on-new-life"
 )
 
 // C09Rule is the generation / non-triviality rule reported in the evidence.
@@ -37,7 +42,7 @@ const C09Rule = "rapid model-based sequences over 2-4 (shard,replica) pairs on o
 	"(append / overwrite-from-above-commit with higher term / state / restore-type snapshot), SaveSnapshots, RemoveEntriesTo, " +
 	"CompactEntriesTo, RemoveNodeData, ImportSnapshot, bootstrap, reopen, size-limited IterateEntries; every replica compared with " +
 	"the reference log after every call. non-trivial = (overwrite that shortens the log, later reopen) or (restore-type snapshot, " +
-	"later append, later reopen) or a size-limited/ranged read that straddles a batch boundary or entries written before and after " +
+	"later append, later reopen) or (RemoveNodeData, new life of the same replica, later reopen) or a size-limited/ranged read that straddles a batch boundary or entries written before and after " +
 	"a reopen/log-file switch; distinct = hash of the rendered call sequence"
 
 func history(ops []string) string {
@@ -105,6 +110,8 @@ func RunC09(t *rapid.T, st *vfhelp.Stats, tr Traits, open Opener, cfg GenCfg) {
 	shortened := map[int]bool{} // replica had an overwrite that shortened its log
 	restored := map[int]int{}   // 1: restore seen, 2: append after it
 	ntShortReopen, ntRestoreReopen, ntStraddle := false, false, false
+	lifeStage := map[int]int{} // 1: node data removed, 2: written again (new life)
+	ntNewLifeReopen := false
 
 	for step := 0; step < nOps; step++ {
 		o := GenOp(t, m, tr, &cfg)
@@ -140,6 +147,26 @@ func RunC09(t *rapid.T, st *vfhelp.Stats, tr Traits, open Opener, cfg GenCfg) {
 					if n := len(u.EntriesToSave); n > 0 {
 						restored[idx] = 2
 					}
+				}
+			}
+		}
+		if o.Kind == OpRemoveNode {
+			lifeStage[o.Rep] = 1
+		}
+		if o.Kind == OpSave {
+			for _, i := range m.Touched(o) {
+				if lifeStage[i] == 1 && m.Reps[i].Removed {
+					lifeStage[i] = 2
+				}
+			}
+		}
+		if o.Kind == OpReopen || o.Kind == OpImport {
+			for _, v := range lifeStage {
+				if v == 1 {
+					labels["removed-then-reopen"] = true
+				}
+				if v == 2 {
+					ntNewLifeReopen = true
 				}
 			}
 		}
@@ -235,12 +262,13 @@ func RunC09(t *rapid.T, st *vfhelp.Stats, tr Traits, open Opener, cfg GenCfg) {
 		"nt-overwrite-shorter-then-reopen": ntShortReopen,
 		"nt-restore-append-reopen":         ntRestoreReopen,
 		"nt-read-straddles-boundary":       ntStraddle,
+		"nt-remove-newlife-reopen":         ntNewLifeReopen,
 	} {
 		if on {
 			labels[l] = true
 		}
 	}
-	nontrivial := ntShortReopen || ntRestoreReopen || ntStraddle
+	nontrivial := ntShortReopen || ntRestoreReopen || ntStraddle || ntNewLifeReopen
 	ls := make([]string, 0, len(labels))
 	for l := range labels {
 		ls = append(ls, l)
